@@ -47,6 +47,8 @@ GExactOK(e) ==
 Explained(e) == CASE e.op = "polydiv" /\ e.kind = "exact" -> ExactOK(e)
                   [] e.op = "polydiv" /\ e.kind = "gexact" -> GExactOK(e)
                   [] e.op = "polydiv" /\ e.kind = "float" -> FloatOK(e)
+                  \* is_zero() of the object inside a sequence (the zero-ness of a divisor decides between Err and Ok)
+                  [] e.op = "is_zero" -> ~e.panic /\ e.b = QIsZero(e.u)
                   [] OTHER -> FALSE
 
 Init == l = 1 /\ TLCSet(1, 0)
